@@ -5,94 +5,7 @@ use vstd::prelude::*;
 
 verus! {
 
-//@@ trusted sharing is modelled by IDENTITY (R8b): every reference-counted cell and channel end (the flow state, the unsettled map, the stop-reason cell, mpsc senders / receivers, Notify) is a stand-in with a ghost identity; `.clone()` keeps it, `Arc::new(..)` / `mpsc::channel(..)` / `Notify::new()` make a new one (the two ends of ONE channel share one identity). What the cells hold and how they are used is the business of the units named in the clauses
-//@@ trusted session::allocate_link (unit HANDLES / SESSION) is a stand-in: on Ok, `registered(handle)` is the relay it was given; exchange_attach / handle_attach_error / set_credit are stand-ins (units LINKATTACH, LINKDETACH, LINKFLOW): set_credit(n) is recorded on the outgoing channel as a grant of n
-//@@ trusted leaf stand-ins: names, terminus types, capabilities, properties, settle modes are opaque values with value-equal Clone; PhantomData markers are unit structs
-
-macro_rules! shared {
-    ($($n:ident),*) => { verus!{ $(
-        #[verifier::external_body]
-        pub struct $n { _p: u8 }
-        impl $n { pub uninterp spec fn id(&self) -> int; }
-        impl Clone for $n { #[verifier::external_body] fn clone(&self) -> (r: Self) ensures r.id() == self.id() { unimplemented!() } }
-    )* } }
-}
-macro_rules! plain {
-    ($($n:ident),*) => { verus!{ $(
-        #[verifier::external_body]
-        pub struct $n { _p: u8 }
-        impl Clone for $n { #[verifier::external_body] fn clone(&self) -> (r: Self) ensures r == *self { unimplemented!() } }
-    )* } }
-}
-shared!(LinkTx, SessCtlTx, UnsettledArc, StopArc, ProcessedArc, NotifyArc);
-#[verifier::external_body]
-pub struct FlowArc { _p: u8 }
-impl FlowArc { pub uninterp spec fn id(&self) -> int; pub uninterp spec fn init(&self) -> LinkFlowStateInner; }
-impl Clone for FlowArc { #[verifier::external_body] fn clone(&self) -> (r: Self) ensures r.id() == self.id(), r.init() == self.init() { unimplemented!() } }
-plain!(Source, TargetT, Caps, Fields, SenderSettleMode, LinkIncomingItem, AttachExchange, IncompleteTransfer, OutputHandle);
-pub type SequenceNo = u32;
-pub type Ulong = u64;
-#[verifier::external_body]
-pub struct LinkRx { _p: u8 }
-impl LinkRx { pub uninterp spec fn id(&self) -> int; }
-/// the link's channel to the session; `granted()`: the credit grants (set_credit) sent through this handle so far
-#[verifier::external_body]
-pub struct OutTx { _p: u8 }
-impl OutTx { pub uninterp spec fn id(&self) -> int; pub uninterp spec fn granted(&self) -> Seq<u32>; }
-impl Clone for OutTx { #[verifier::external_body] fn clone(&self) -> (r: Self) ensures r.id() == self.id(), r.granted() == self.granted() { unimplemented!() } }
-pub struct PhantomData {}
-//@@ type file=fe2o3-amqp-types/src/definitions/rcv_settle_mode.rs kind=enum name=ReceiverSettleMode clone
-//@@ attr #[derive(PartialEq, Eq, Structural)]
-//@@ end
-impl Default for ReceiverSettleMode { fn default() -> (r: Self) ensures r == ReceiverSettleMode::First { ReceiverSettleMode::First } }
-//@@ type file=fe2o3-amqp/src/link/receiver.rs kind=enum name=CreditMode clone
-//@@ end
-//@@ type file=fe2o3-amqp/src/link/state.rs kind=enum name=LinkState
-//@@ end
-//@@ type file=fe2o3-amqp/src/link/state.rs kind=struct name=LinkFlowStateInner
-//@@ end
-pub mod mpsc {
-    use super::*;
-    /// tokio::sync::mpsc::channel: the two ends of one new channel
-    #[verifier::external_body]
-    pub fn channel<T>(n: usize) -> (r: (LinkTx, LinkRx)) ensures r.0.id() == r.1.id() { unimplemented!() }
-}
-pub struct Arc {}
-pub struct RwLock {}
-pub struct RwLockNone {}
-impl RwLock { pub fn new(x: Option<u8>) -> (r: RwLockNone) { RwLockNone {} } }
-pub struct LinkFlowState {}
-pub struct FlowInit { pub inner: LinkFlowStateInner }
-impl LinkFlowState {
-    pub fn receiver(inner: LinkFlowStateInner) -> (r: FlowInit) ensures r.inner == inner { FlowInit { inner } }
-    pub fn sender(inner: LinkFlowStateInner) -> (r: FlowInit) ensures r.inner == inner { FlowInit { inner } }
-}
-pub trait ArcNew: Sized { type Out; spec fn made(self, r: Self::Out) -> bool; fn arc_new(self) -> (r: Self::Out) ensures self.made(r); }
-impl ArcNew for FlowInit { type Out = FlowArc; open spec fn made(self, r: FlowArc) -> bool { r.init() == self.inner } #[verifier::external_body] fn arc_new(self) -> (r: FlowArc) { unimplemented!() } }
-impl ArcNew for RwLockNone { type Out = UnsettledArc; open spec fn made(self, r: UnsettledArc) -> bool { true } #[verifier::external_body] fn arc_new(self) -> (r: UnsettledArc) { unimplemented!() } }
-pub struct NotifyNew {}
-pub struct Notify {}
-impl Notify { pub fn new() -> (r: NotifyNew) { NotifyNew {} } }
-impl ArcNew for NotifyNew { type Out = NotifyArc; open spec fn made(self, r: NotifyArc) -> bool { true } #[verifier::external_body] fn arc_new(self) -> (r: NotifyArc) { unimplemented!() } }
-#[verifier::external_body]
-pub fn new_processed_counter() -> (r: ProcessedArc) { unimplemented!() }
-
-/// Producer / Consumer (util): the relay's and the link's view of ONE sender flow state and ONE notifier
-pub struct Producer { pub notifier: NotifyArc, pub state: FlowArc }
-pub struct Consumer { pub notifier: NotifyArc, pub state: FlowArc }
-impl Producer { pub fn new(notifier: NotifyArc, state: FlowArc) -> (r: Self) ensures r.notifier == notifier, r.state == state { Producer { notifier, state } } }
-impl Consumer { pub fn new(notifier: NotifyArc, state: FlowArc) -> (r: Self) ensures r.notifier == notifier, r.state == state { Consumer { notifier, state } } }
-pub type SenderRelayFlowState = Producer;
-pub type SenderFlowState = Consumer;
-pub type ReceiverRelayFlowState = FlowArc;
-pub type ReceiverFlowState = FlowArc;
-pub type ArcSenderUnsettledMap = UnsettledArc;
-pub type ArcReceiverUnsettledMap = UnsettledArc;
-
-pub enum LinkRelay {
-    Sender { tx: LinkTx, output_handle: (), flow_state: SenderRelayFlowState, unsettled: ArcSenderUnsettledMap, receiver_settle_mode: ReceiverSettleMode },
-    Receiver { tx: LinkTx, output_handle: (), flow_state: ReceiverRelayFlowState, unsettled: ArcReceiverUnsettledMap, receiver_settle_mode: ReceiverSettleMode, more: bool },
-}
+//@@ include wiringpre.rs
 impl LinkRelay {
 //@@ fn file=fe2o3-amqp/src/link/mod.rs impl=`impl LinkRelay<()>` name=new_sender
 //@@ param tx : LinkTx
@@ -109,79 +22,6 @@ impl LinkRelay {
         && !r->Receiver_more,                                                          // [C10.wiring.relay-starts-between-deliveries]
 //@@ end
 }
-
-pub enum AllocLinkError { SessionStopped, Other }
-pub enum ReceiverAttachError { IllegalState, Alloc(AllocLinkError), Other(u8) }
-pub enum SenderAttachError { IllegalState, Alloc(AllocLinkError), Other(u8) }
-pub trait ErrInto<T>: Sized { spec fn conv(self) -> T; fn err_into(self) -> (r: T) ensures r == self.conv(); }
-impl ErrInto<ReceiverAttachError> for AllocLinkError { open spec fn conv(self) -> ReceiverAttachError { ReceiverAttachError::Alloc(self) } fn err_into(self) -> (r: ReceiverAttachError) { ReceiverAttachError::Alloc(self) } }
-impl ErrInto<SenderAttachError> for AllocLinkError { open spec fn conv(self) -> SenderAttachError { SenderAttachError::Alloc(self) } fn err_into(self) -> (r: SenderAttachError) { SenderAttachError::Alloc(self) } }
-impl ErrInto<ReceiverAttachError> for ReceiverAttachError { open spec fn conv(self) -> ReceiverAttachError { self } fn err_into(self) -> (r: ReceiverAttachError) { let e = self; assert(e == <ReceiverAttachError as ErrInto<ReceiverAttachError>>::conv(self)); e } }
-impl ErrInto<SenderAttachError> for SenderAttachError { open spec fn conv(self) -> SenderAttachError { self } fn err_into(self) -> (r: SenderAttachError) { let e = self; assert(e == <SenderAttachError as ErrInto<SenderAttachError>>::conv(self)); e } }
-pub struct IllegalLinkState {}
-impl ErrInto<ReceiverAttachError> for IllegalLinkState { open spec fn conv(self) -> ReceiverAttachError { ReceiverAttachError::IllegalState } fn err_into(self) -> (r: ReceiverAttachError) { ReceiverAttachError::IllegalState } }
-
-pub struct SessionHandle { pub control: SessCtlTx, pub outgoing: OutTx, pub stop: StopArc }
-impl SessionHandle { pub fn session_stop_reason(&self) -> (r: &StopArc) ensures *r == self.stop { &self.stop } }
-/// the relay the session engine registered under a handle
-pub uninterp spec fn registered(h: OutputHandle) -> LinkRelay;
-pub mod session {
-    use super::*;
-    #[verifier::external_body]
-    pub fn allocate_link(control: &SessCtlTx, link_name: String, link_relay: LinkRelay, stop: &StopArc) -> (r: Result<OutputHandle, AllocLinkError>)
-        ensures r is Ok ==> registered(r->Ok_0) == link_relay,
-    { unimplemented!() }
-}
-
-// Link<Role, T, C, M>: the fields create_link fills (all of them), C = the link's flow-state handle
-pub struct LinkR {
-    pub role: PhantomData, pub local_state: LinkState, pub name: String, pub output_handle: Option<OutputHandle>, pub input_handle: Option<u32>,
-    pub snd_settle_mode: SenderSettleMode, pub rcv_settle_mode: ReceiverSettleMode, pub source: Option<Source>, pub target: Option<TargetT>, pub max_message_size: u64,
-    pub offered_capabilities: Option<Caps>, pub desired_capabilities: Option<Caps>, pub flow_state: FlowArc, pub unsettled: UnsettledArc, pub session_stop_reason: StopArc,
-    pub verify_incoming_source: bool, pub verify_incoming_target: bool,
-}
-pub struct LinkS {
-    pub role: PhantomData, pub local_state: LinkState, pub name: String, pub output_handle: Option<OutputHandle>, pub input_handle: Option<u32>,
-    pub snd_settle_mode: SenderSettleMode, pub rcv_settle_mode: ReceiverSettleMode, pub source: Option<Source>, pub target: Option<TargetT>, pub max_message_size: u64,
-    pub offered_capabilities: Option<Caps>, pub desired_capabilities: Option<Caps>, pub flow_state: Consumer, pub unsettled: UnsettledArc, pub session_stop_reason: StopArc,
-    pub verify_incoming_source: bool, pub verify_incoming_target: bool,
-}
-pub struct Exchange { pub complete: bool }
-impl Exchange {
-    pub fn complete_or<E>(self, e: E) -> (r: Result<(), E>) ensures self.complete ==> r is Ok, !self.complete ==> r == Err::<(), E>(e) { if self.complete { Ok(()) } else { Err(e) } }
-}
-impl LinkR {
-    #[verifier::external_body]
-    pub fn exchange_attach(&mut self, writer: &OutTx, reader: &mut LinkRx, session: &SessCtlTx, is_reattaching: bool) -> (r: Result<Exchange, ReceiverAttachError>)
-        ensures final(self).flow_state == old(self).flow_state, final(self).unsettled == old(self).unsettled, final(self).session_stop_reason == old(self).session_stop_reason,
-            final(self).rcv_settle_mode == old(self).rcv_settle_mode, final(self).output_handle == old(self).output_handle, final(reader).id() == old(reader).id(),
-    { unimplemented!() }
-    #[verifier::external_body]
-    pub fn handle_attach_error(&mut self, e: ReceiverAttachError, writer: &OutTx, reader: &mut LinkRx, session: &SessCtlTx) -> (r: ReceiverAttachError) { unimplemented!() }
-}
-impl LinkS {
-    #[verifier::external_body]
-    pub fn exchange_attach(&mut self, writer: &OutTx, reader: &mut LinkRx, session: &SessCtlTx, is_reattaching: bool) -> (r: Result<Exchange, SenderAttachError>)
-        ensures final(self).flow_state == old(self).flow_state, final(self).unsettled == old(self).unsettled, final(self).session_stop_reason == old(self).session_stop_reason,
-            final(self).output_handle == old(self).output_handle, final(reader).id() == old(reader).id(),
-    { unimplemented!() }
-    #[verifier::external_body]
-    pub fn handle_attach_error(&mut self, e: SenderAttachError, writer: &OutTx, reader: &mut LinkRx, session: &SessCtlTx) -> (r: SenderAttachError) { unimplemented!() }
-}
-pub struct ReceiverInner {
-    pub link: LinkR, pub buffer_size: usize, pub credit_mode: CreditMode, pub processed: ProcessedArc, pub auto_accept: bool,
-    pub session: SessCtlTx, pub outgoing: OutTx, pub incoming: LinkRx, pub incomplete_transfer: Option<IncompleteTransfer>,
-}
-impl ReceiverInner {
-    /// ReceiverInner::set_credit (unit LINKFLOW: one flow granting exactly `credit`)
-    #[verifier::external_body]
-    pub fn set_credit(&mut self, credit: u32) -> (r: Result<(), IllegalLinkState>)
-        ensures r is Ok ==> final(self).outgoing.granted() == old(self).outgoing.granted().push(credit), final(self).outgoing.id() == old(self).outgoing.id(),
-            final(self).link == old(self).link, final(self).credit_mode == old(self).credit_mode, final(self).processed == old(self).processed, final(self).auto_accept == old(self).auto_accept,
-            final(self).session == old(self).session, final(self).incoming.id() == old(self).incoming.id(), final(self).incomplete_transfer == old(self).incomplete_transfer, final(self).buffer_size == old(self).buffer_size,
-    { unimplemented!() }
-}
-pub struct SenderInner { pub link: LinkS, pub buffer_size: usize, pub session: SessCtlTx, pub outgoing: OutTx, pub incoming: LinkRx }
 
 // Builder<Role, T, NameState, SS, TS>: every field (R11: the type-state markers are unit structs)
 pub struct BuilderR {
